@@ -3,12 +3,16 @@ import Driver.Limits
 import Driver.SilLimits
 import Driver.Sem
 import Driver.Trunc
+import Driver.TmplData
+import Driver.Retry
 -- engines of work area Limits: import your Driver.<Engine> modules above and list them here
 namespace Driver.Reg.Limits
 def engines : List (String × IO UInt32) := [
   ("limits", Driver.runEngine Driver.Limits.engine),
   ("sillimits", Driver.runEngine Driver.SilLimits.engine),
   ("sem", Driver.runEngine Driver.Sem.engine),
-  ("trunc", Driver.runEngine Driver.Trunc.engine)
+  ("trunc", Driver.runEngine Driver.Trunc.engine),
+  ("tmpldata", Driver.runEngine Driver.TmplData.engine),
+  ("retry", Driver.runEngine Driver.Retry.engine)
 ]
 end Driver.Reg.Limits
